@@ -1,5 +1,5 @@
 """C20 - runs are deterministic and VM instances living in one process are isolated from each other."""
-import json, os, re, sys
+import decimal, json, math, os, re, struct, sys
 import vcommon as V
 import vmcommon as VM
 
@@ -63,6 +63,192 @@ def marks(rec):
         if ":M<" in item and not item.split(":M<", 1)[1].startswith("VALUE "):
             out.append(item.split(":M<", 1)[1].rstrip(">"))
     return out
+
+
+def marks_all(rec):
+    """every printed line of a VM record, the final value included"""
+    return [item.split(":M<", 1)[1].rstrip(">") for item in rec.split(",") if ":M<" in item]
+
+
+# ---------------------------------------------------------------- family N: numbers and the text they must become
+F32_MAX = 3.4028234663852886e38
+
+
+def f32(x):
+    """the float (binary32) nearest to x, as a Python float"""
+    try:
+        return struct.unpack("<f", struct.pack("<f", x))[0]
+    except OverflowError:
+        return math.copysign(F32_MAX, x)
+
+
+def num_literal(x):
+    """SQF literal with exactly the value of the float x (its full decimal expansion: any correct reader yields x)"""
+    s = format(decimal.Decimal(abs(x)), "f")
+    return "(-%s)" % s if math.copysign(1.0, x) < 0 else s
+
+
+def num_text(x, m):
+    """text of the float x: m = -1 the shortest notation (%g), m = 0..20 fixed notation with m decimals (%.mf)"""
+    return "%g" % x if m < 0 else "%.*f" % (m, x)
+
+
+def unary_mode(a):
+    """print mode selected by `toFixed a`"""
+    return 20 if a > 20 else (-1 if a < 0 else a)
+
+
+def binary_decimals(a):
+    """decimals of `x toFixed a`"""
+    return 20 if a > 20 else (0 if a <= 0 else a)
+
+
+def show_sqf(v, m):
+    """str / printed value / format argument: strings quoted"""
+    if isinstance(v, str):
+        return '"' + v.replace('"', '""') + '"'
+    if isinstance(v, list):
+        return "[" + ",".join(show_sqf(x, m) for x in v) + "]"
+    return num_text(v, m)
+
+
+def show_raw(v, m):
+    """diag_log: strings as they are, at every depth"""
+    if isinstance(v, str):
+        return v
+    if isinstance(v, list):
+        return "[" + ",".join(show_raw(x, m) for x in v) + "]"
+    return num_text(v, m)
+
+
+def canon_text(t):
+    """what harness/h_api.cpp does to a printed text before it goes into the record"""
+    return re.sub(r"[\t\n\r|,{}]", " ", t)
+
+
+NUM_SPECIALS = ([0.0, -0.0, 1.0, -1.0, 0.5, 1.5, 2.5, 3.5, -2.5, 0.125, 0.375, 0.625, 9.5, 99.5, 999999.5, 9.75, 16777216.0, 16777215.0, 8388607.5, 2147483648.0,
+                 4294967296.0, 100000.0, 1000000.0, 999999.0, F32_MAX, -F32_MAX]
+                + [f32(v) for v in (0.1, 0.2, 1 / 3, 2 / 3, 99999.95, 999999.95, 1e-5, 9.9999e-5, 1e-4, 1.17549435e-38, 1.4e-45, 7e-45, 1e38, 1e37, 3e38, 123456789012.0, 0.049999, 0.95, 0.995, 9.9995)]
+                + [2.0 ** k for k in (-149, -148, -127, -126, -64, -24, -10, -1, 10, 23, 24, 31, 32, 53, 63, 64, 100, 126, 127)]
+                + [f32(10.0 ** k) for k in range(-45, 39)])
+
+# the routes on which a number becomes text
+NUM_ROUTES = ["x toFixed n", "str x", "diag_log x", "array", "str array", "format", "joinString", "string +", "call str", "count", "toArray", "apply toFixed", "hashmap"]
+NUM_ROUTES_MODELESS = ["x toFixed n", "apply toFixed", "string + toFixed"]
+NUM_ROUTES_BINARY = ("x toFixed n", "count", "toArray", "apply toFixed")     # x itself goes through the binary operator
+
+
+def num_expr(route, x, y, n, m):
+    """(SQF expression, its value as the generator models it) - x, y floats, n the argument of binary toFixed, m the print mode in force"""
+    X, Y = num_literal(x), num_literal(y)
+    bx, by = num_text(x, binary_decimals(n)), num_text(y, binary_decimals(n))
+    N = str(n) if n >= 0 else "(%d)" % n
+    if route == "x toFixed n":
+        return "(%s toFixed %s)" % (X, N), bx
+    if route == "str x":
+        return "(str %s)" % X, num_text(x, m)
+    if route == "diag_log x":
+        return X, x
+    if route == "array":
+        return "[%s, [%s], %s toFixed %s]" % (X, Y, X, N), [x, [y], bx]
+    if route == "str array":
+        return "(str [%s, %s])" % (X, Y), show_sqf([x, y], m)
+    if route == "format":
+        return '(format ["%%1 / %%2 / %%3", %s, %s toFixed %s, [%s]])' % (X, Y, N, Y), "%s / %s / %s" % (num_text(x, m), by, show_sqf([y], m))
+    if route == "joinString":
+        return '([%s, %s, %s toFixed %s] joinString "_")' % (X, Y, X, N), "%s_%s_%s" % (num_text(x, m), num_text(y, m), bx)
+    if route == "string +":
+        return '("v=" + str %s + ";" + (%s toFixed %s))' % (X, Y, N), "v=%s;%s" % (num_text(x, m), by)
+    if route == "string + toFixed":
+        return '((%s toFixed %s) + ";" + (%s toFixed %s))' % (X, N, Y, N), "%s;%s" % (bx, by)
+    if route == "call str":
+        return "(%s call { str _this })" % X, num_text(x, m)
+    if route == "count":
+        return "(count (%s toFixed %s))" % (X, N), float(len(bx))
+    if route == "toArray":
+        return "(toArray (%s toFixed %s))" % (X, N), [float(ord(c)) for c in bx]
+    if route == "apply toFixed":
+        return "([%s, %s] apply { _x toFixed %s })" % (X, Y, N), [bx, by]
+    if route == "hashmap":
+        return '(str createHashMapFromArray [["k", %s]])' % X, '[["k",%s]]' % num_text(x, m)
+    raise ValueError(route)
+
+
+def num_value(rng, digits=None):
+    """a float: one of the special ones, or one with that many digits before the point (None: any magnitude 1e-45 .. FLT_MAX)"""
+    if digits is None:
+        k = rng.random()
+        if k < 0.3:
+            return rng.choice(NUM_SPECIALS)
+        if k < 0.45:
+            return math.copysign(f32(rng.random() * 10.0 ** -rng.randint(0, 44)), rng.choice([1, 1, -1]))
+        digits = rng.randint(1, 39)
+    x = f32(rng.uniform(1, 10) * 10.0 ** (digits - 1))
+    if digits <= 7 and rng.random() < 0.3:
+        x = float(int(x))
+    return x
+
+
+def number_programs(rng, thorough):
+    """programs P (every one starts by choosing its print mode) with the record they must produce, and programs Q (other numbers on
+    the routes that do not depend on the print mode, or nothing).  First a sweep: for every route and every length 1..61 a number
+    whose fixed-notation text has exactly that length; then random programs."""
+    items = []                                       # (route, x, y, n, print mode the statement wants or None)
+    for route in NUM_ROUTES:
+        for length in range(1, 62):
+            for _ in range(400):
+                n = rng.randint(0, 20)
+                neg = rng.random() < 0.35
+                d = length - (1 if neg else 0) - (n + 1 if n else 0)
+                if not 1 <= d <= 39:
+                    continue
+                x = num_value(rng, d)
+                if d == 1 and rng.random() < 0.4:
+                    x = f32(rng.random())
+                x = -x if neg else x
+                if len(num_text(x, n)) == length:
+                    break
+            else:
+                continue
+            # on the routes that print in the mode of the program the mode is n; the binary operator gets n as its argument
+            items.append((route, x, num_value(rng), n, n))
+    rng.shuffle(items)
+    for _ in range(2400 if thorough else 260):
+        n = rng.choice([0, 1, 2, 3, 6, 10, 19, 20, 20, 21, 25, 100, -1, -3] + list(range(0, 21)))
+        items.append((rng.choice(NUM_ROUTES), math.copysign(num_value(rng), rng.choice([1, 1, 1, -1])), num_value(rng), n,
+                      None if rng.random() < 0.5 else rng.choice([-1, -1, -5, 0, 2, 6, 13, 20, 30] + list(range(0, 21)))))
+    progs, i = [], 0
+    while i < len(items):
+        k = rng.randint(2, 5)
+        chunk, i = items[i:i + k], i + k
+        first = chunk[0][4] if chunk[0][4] is not None else rng.choice([-1, 3, 8, 20])
+        text, mode = ["toFixed %s;" % (first if first >= 0 else "(%d)" % first)], unary_mode(first)
+        lines, routes = [], []
+        for j, (route, x, y, n, want) in enumerate(chunk):
+            if want is not None and unary_mode(want) != mode:
+                text.append("toFixed %s;" % (want if want >= 0 else "(%d)" % want))
+                mode = unary_mode(want)
+            e, v = num_expr(route, x, y, n, mode)
+            # the length recorded for the coverage: the text of x in the notation of its route
+            shown = num_text(x, binary_decimals(n) if route in NUM_ROUTES_BINARY else mode)
+            routes.append((route + (" (printed value)" if j == len(chunk) - 1 else ""), len(shown)))
+            if j < len(chunk) - 1:
+                text.append("diag_log %s;" % e)
+                lines.append("3:60019:M<%s>," % canon_text(show_raw(v, mode)))
+            else:
+                text.append(e)
+                lines.append("3:60095:M<VALUE %s>," % canon_text(show_sqf(v, mode)))
+        # Q: numbers again, on routes that never read the print mode (what P prints must not depend on it anyway)
+        if rng.random() < 0.15:
+            q = ""
+        else:
+            qs = []
+            for _ in range(rng.randint(1, 3)):
+                e, _v = num_expr(rng.choice(NUM_ROUTES_MODELESS), num_value(rng), num_value(rng), rng.choice([0, 2, 6, 12, 20]), -1)
+                qs.append("diag_log %s;" % e)
+            q = " ".join(qs)
+        progs.append((" ".join(text), q, "-1:0:" + "".join(lines), routes))
+    return progs
 
 
 def confirm_concurrent(run, replay):
@@ -428,6 +614,84 @@ def main(replay=None):
                               {"family": "E", "text_p": tp, "text_q": tq, "impl": r, "mode": m})
                 break
 
+    # ------------------------------------------------------------- family N: the text of a number
+    # A number becomes text on many routes: binary `x toFixed n`, and - in the print mode the program itself chose with unary
+    # `toFixed m` (every P starts by choosing it, so nothing an earlier instance left behind is read) - str, format, joinString,
+    # string +, diag_log of a scalar / of an array, elements of arrays and hashmaps, the printed value of the finished script.  The
+    # text is a function of the input alone (first sentence of the property) and the generator knows that function: the decimal
+    # expansion of the float with that many decimals (C's %.nf), %g in the shortest mode.  So the whole record of P is computed here
+    # and must be what a fresh VM prints (oracle 1), and the records of P alone in two processes (two address-space layouts), after Q,
+    # after itself and beside Q must be the same bytes (oracle 2).  Numbers: every text length that a float can have in fixed notation
+    # (1 .. 61 = sign + 39 digits + point + 20 decimals) on every route, magnitudes 1e-45 .. FLT_MAX, both signs, ties, powers of two
+    # and ten, decimals 0 .. 20 and out of range.
+    nstats = {}
+    casesN = []      # (text of P, text of Q, expected record of P, [(route, text length of the number)])
+    if replay:
+        r = json.load(open(replay))["replay"]
+        if r.get("family") == "N":
+            casesN = [(r["text_p"], r["text_q"], r["expected_record"], [tuple(x) for x in r.get("routes", [])])]
+    else:
+        cdir = os.path.join(V.VERIF, "corpus", PID)
+        if os.path.isdir(cdir):
+            for fn in sorted(os.listdir(cdir)):
+                r = json.load(open(os.path.join(cdir, fn)))
+                if r.get("family") == "N":
+                    casesN.append((r["text_p"], r["text_q"], r["expected_record"], [tuple(x) for x in r.get("routes", [])]))
+        casesN += number_programs(rng, thorough)
+    il = []
+    for tp, tq, _, _ in casesN:
+        for m in ("alone", "after", "twice", "beside"):
+            il.append("%s\t%s\t%s" % (m, hx(tp), hx(tq)))
+    rc, implN, _ = harness_run("iso", il, timeout=3000)
+    # the same programs alone once more, in other processes (another start of the harness: another layout of stack, heap and code)
+    rc, implN2, _ = harness_run("iso", ["alone\t%s\t%s" % (hx(tp), hx("")) for tp, _, _, _ in casesN][::-1], timeout=3000)
+    implN2 = implN2[::-1]
+    it = iter(implN)
+    dist["N programs (number -> text on every route) x 5 runs"] = len(casesN)
+    seenN = {}
+    lengths, routes_seen = set(), {}
+    for (tp, tq, want, routes), other in zip(casesN, implN2):
+        r = {m: next(it) for m in ("alone", "after", "twice", "beside")}
+        r["alone in another process"] = other
+        evaluations += 5
+        distinct.add(("N", tp))
+        for rt_, ln in routes:
+            lengths.add(ln)
+            routes_seen[rt_] = routes_seen.get(rt_, 0) + 1
+        rep = {"family": "N", "text_p": tp, "text_q": tq, "expected_record": want, "routes": [list(x) for x in routes], "impl": r}
+        if r["alone"] != want:
+            got, exp = marks_all(r["alone"]), marks_all(want)
+            at = next((i for i in range(min(len(got), len(exp))) if got[i] != exp[i]), min(len(got), len(exp)))
+            rt_ = routes[at][0] if at < len(routes) else "?"
+            if seenN.get("text", 0) < 4 and ("text", rt_) not in seenN:
+                seenN[("text", rt_)] = 1
+                seenN["text"] = seenN.get("text", 0) + 1
+                run.violation("a fresh VM in a fresh process does not print a number as the text the input determines (route `%s`, statement %d of P): got %r, the decimal expansion "
+                              "of the float with the decimals asked for is %r (%d characters)" % (
+                                  rt_, at + 1, got[at] if at < len(got) else r["alone"][:60], exp[at] if at < len(exp) else "<nothing more>", len(exp[at]) if at < len(exp) else 0),
+                              dict(rep, mode="alone", oracle="expected text computed by the generator", statement=at + 1))
+        for m in ("alone in another process", "after", "twice", "beside"):
+            if r[m] != r["alone"]:
+                got, exp = marks_all(r[m]), marks_all(r["alone"])
+                at = next((i for i in range(min(len(got), len(exp))) if got[i] != exp[i]), min(len(got), len(exp)))
+                rt_ = routes[at][0] if at < len(routes) else "?"
+                if seenN.get("same", 0) < 4 and ("same", rt_) not in seenN and ("same", m) not in seenN:
+                    seenN[("same", rt_)] = seenN[("same", m)] = 1
+                    seenN["same"] = seenN.get("same", 0) + 1
+                    run.violation("the same program in a fresh VM gives different output (%s): statement %d of P (route `%s`) printed %r in the one run and %r in the other; "
+                                  "P uses no time / random operator and chooses its print mode itself" % (
+                                      {"alone in another process": "run alone in two processes", "after": "alone / after Q ran in another instance of the process",
+                                       "twice": "alone / after P itself ran in another instance of the process", "beside": "alone / beside Q on another thread"}[m],
+                                      at + 1, rt_, exp[at] if at < len(exp) else "<nothing more>", got[at] if at < len(got) else "<nothing more>"),
+                                  dict(rep, mode=m, oracle="records must be the same bytes", statement=at + 1))
+                break
+    nstats.update({"programs": len(casesN), "runs": 5 * len(casesN), "statements": sum(len(c[3]) for c in casesN),
+                   "statements per route": dict(sorted(routes_seen.items())),
+                   "text lengths of the numbers (fixed notation: sign + digits + point + decimals)": "%d distinct, %s..%s" % (
+                       len(lengths), min(lengths) if lengths else "-", max(lengths) if lengths else "-"),
+                   "lengths 1..61 not covered": [k for k in range(1, 62) if k not in lengths] if not replay else "-"})
+    run.cov["number_text"] = nstats
+
     # ------------------------------------------------------------- family T: the clock is not an input
     # A program that uses no time operator (sleep, uiSleep, time, diag_tickTime, systemTime, ...) and runs without a time limit
     # has the same inputs whatever the clock does, so by the first sentence of the property its values, its diagnostics and their
@@ -653,6 +917,11 @@ def main(replay=None):
                        "in a basic / empty instance while Q uses it as an operator in a full one, and the reverse, four modes; "
                        "family E: Q leaves C-library state behind on the thread (errno from overflowing ^ / exp / parseNumber / a config literal, floating-point flags from divisions by zero and overflows), "
                        "P in a fresh instance loads a config with decimal / hex numbers and arrays and reads them back, and prints arithmetic results; "
+                       "family N (number -> text): programs that start by choosing their print mode (unary toFixed m, m in -1..20 and out of range) and then turn floats into text on "
+                       "every route - x toFixed n, str, format, joinString, string +, call, count / toArray of the text, apply, diag_log of scalars and arrays, array and hashmap elements, "
+                       "the printed value - with literals that are the exact expansion of a float; sweep: every route x every text length 1..61 (sign + up to 39 digits + point + up to 20 "
+                       "decimals), then random magnitudes 1e-45..FLT_MAX, ties, powers of two and ten, decimals out of range; oracle 1: the whole record equals the one the generator "
+                       "computes (%.nf / %g of the float); oracle 2: P alone in two processes, after Q, after itself, beside Q give the same bytes (Q: other numbers through binary toFixed); "
                        "family R (re-entrancy, one thread): candidates = the registry-wide operand sweep of checks/C09.py (one case per signature) plus string-building operators with "
                        "out-of-range / missing arguments, each run alone; those that return a value and emit a non-error diagnostic before it are paired (same operator with "
                        "other operands, another operator): instance B runs Q inside the log callback of instance A at A's k-th diagnostic of P; A's record must equal P alone, "
